@@ -547,9 +547,19 @@ func TestC08(t *testing.T) {
 		_ = json.Unmarshal(raw, &k)
 		return evalC08(k)
 	})
-	kinds := []string{"alias", "dyn", "zchar", "lenzero", "keyzero", "defpad", "padarg", "attrplace", "defopt", "expand", "aslist", "via", "semi", "paircomma"}
+	kinds := []string{"alias", "dyn", "zchar", "lenzero", "keyzero", "defpad", "padarg", "attrplace", "defopt", "expand", "aslist", "via", "semi", "paircomma", "optquote", "optsplit"}
 	c.Check(t, func(rt *rapid.T) {
 		p := dsl.GenProgram(rt, dsl.GenCfg{MaxPackets: 4, Docs: true, Avoid: avoid, Shapes: true, AnyOrder: true, KeywordNames: true, MetaShare: rapid.IntRange(0, 3).Draw(rt, "metashare") == 0})
+		// the package options have the empty string as their default: a program that leaves them
+		// out may also spell them `JavaPackage = ""`
+		if rapid.IntRange(0, 3).Draw(rt, "no_package_options") == 0 {
+			for i, o := range []*string{&p.Opts.JavaPackage, &p.Opts.GoPackage, &p.Opts.GoModule} {
+				if rapid.IntRange(0, 2).Draw(rt, fmt.Sprintf("drop_pkg_opt%d", i)) > 0 {
+					*o = ""
+				}
+			}
+			c.Class("program-without-package-options")
+		}
 		ua, ub := map[string]int{}, map[string]int{}
 		var only string
 		if rapid.Bool().Draw(rt, "single_kind") {
